@@ -246,12 +246,12 @@ func (s *VStore) Peek(i uint64) *raft.Log { return s.logs[i] }
 // plain store variants must not advertise the optional interfaces.
 type plainStore struct{ s *VStore }
 
-func (p plainStore) FirstIndex() (uint64, error)             { return p.s.FirstIndex() }
-func (p plainStore) LastIndex() (uint64, error)              { return p.s.LastIndex() }
-func (p plainStore) GetLog(i uint64, l *raft.Log) error      { return p.s.GetLog(i, l) }
-func (p plainStore) StoreLog(l *raft.Log) error              { return p.s.StoreLog(l) }
-func (p plainStore) StoreLogs(l []*raft.Log) error           { return p.s.StoreLogs(l) }
-func (p plainStore) DeleteRange(a, b uint64) error           { return p.s.DeleteRange(a, b) }
+func (p plainStore) FirstIndex() (uint64, error)        { return p.s.FirstIndex() }
+func (p plainStore) LastIndex() (uint64, error)         { return p.s.LastIndex() }
+func (p plainStore) GetLog(i uint64, l *raft.Log) error { return p.s.GetLog(i, l) }
+func (p plainStore) StoreLog(l *raft.Log) error         { return p.s.StoreLog(l) }
+func (p plainStore) StoreLogs(l []*raft.Log) error      { return p.s.StoreLogs(l) }
+func (p plainStore) DeleteRange(a, b uint64) error      { return p.s.DeleteRange(a, b) }
 
 type monoStore struct{ plainStore }
 
